@@ -269,4 +269,12 @@ theorem tie_cycle_result :
     C07.allocate_result_stores = 1 ∧
     C07.prefilter_designation_cleared_when.head? = some "!hintForDevice" := by decide
 
+/-- EXTENSION 6 - fillGPUTotalMem converts every entry with the gpu-memory total of the device THE ENTRY IS ON
+    (Model/C07Fill.lean `fillGPU`: `rlVal t 1` of `drGet total e.1`): the range body looks the device up by the entry's own
+    minor, and both conversions take that device's gpu-memory (directly or through a local assigned once, directly in the
+    loop body).  Local names are free; a size looked up outside the loop / under a condition breaks the tie. -/
+theorem tie_fill_uses_entry_device :
+    C07.fill_device_lookup = "in-loop:entry-minor" ∧
+    C07.fill_conversion_totals = ["memoryBytesToRatio:entry-device", "memoryRatioToBytes:entry-device"] := by decide
+
 end KoordVerif.C07
